@@ -558,26 +558,38 @@ class BranchBuilder(AstVisitor[None]):
         # Support chained comparisons, e.g. `x <= 5 < y` by compiling to `x <= 5 and
         # 5 < y`. This way we get short-circuit evaluation for free.
         if len(node.comparators) > 1:
-            comparators = [node.left, *node.comparators]
-            values = [
-                ast.Compare(
-                    left=left,
-                    ops=[op],
-                    comparators=[right],
-                    lineno=left.lineno,
-                    col_offset=left.col_offset,
-                    end_lineno=right.end_lineno,
-                    end_col_offset=right.end_col_offset,
-                )
-                for left, op, right in zip(
-                    comparators[:-1], node.ops, comparators[1:], strict=True
-                )
-            ]
+            # The middle operand takes part in two comparisons but must be evaluated only
+            # once, after the left operand. So we evaluate both into temporaries first.
+            left, bb = self._bind_operand(node.left, bb)
+            mid, bb = self._bind_operand(node.comparators[0], bb)
+            first = ast.Compare(left=left, ops=[node.ops[0]], comparators=[mid])
+            rest = ast.Compare(
+                left=copy.copy(mid), ops=node.ops[1:], comparators=node.comparators[1:]
+            )
+            for cmp in (first, rest):
+                cmp.lineno = cmp.left.lineno
+                cmp.col_offset = cmp.left.col_offset
+                cmp.end_lineno = cmp.comparators[-1].end_lineno
+                cmp.end_col_offset = cmp.comparators[-1].end_col_offset
+            values: list[ast.expr] = [first, rest]
             conj = ast.BoolOp(op=ast.And(), values=values)
             set_location_from(conj, node)
             self.visit_BoolOp(conj, bb, true_bb, false_bb)
         else:
             self.generic_visit(node, bb, true_bb, false_bb)
+
+    def _bind_operand(self, node: ast.expr, bb: BB) -> tuple[ast.expr, BB]:
+        """Evaluates an operand into a temporary variable so it can be used twice.
+
+        Names and constants are returned unchanged. Returns the expression to use in
+        place of the operand and the BB in which it is available.
+        """
+        if isinstance(node, ast.Name | ast.Constant):
+            return node, bb
+        value, bb = ExprBuilder.build(node, self.cfg, bb)
+        tmp = next(tmp_vars)
+        ExprBuilder._tmp_assign(tmp, value, bb)
+        return make_var(tmp, node), bb
 
     def visit_IfExp(self, node: ast.IfExp, bb: BB, true_bb: BB, false_bb: BB) -> None:
         then_bb, else_bb = self.cfg.new_bb(), self.cfg.new_bb()
